@@ -20,7 +20,7 @@ impl Monitor for C02 {
 
     fn plan(&self, tier: Tier) -> Plan {
         let mut p = Plan::new(
-            tier.pick(200_000, 12_000_000),
+            tier.pick(1_000_000, 40_000_000),
             "cases as C01 plus hostile bytes in lines (NUL, CR, invalid UTF-8); non-trivial = the Diff contains >= 2 different DiffLine variants or a multiline run of >= 2 lines; distinct = hash of the sequence of variants and run lengths",
         );
         p.floor_nontrivial = tier.pick(1_000, 5_000);
@@ -37,7 +37,11 @@ impl Monitor for C02 {
         p
     }
 
-    fn gen(&self, env: &Env, _k: u64, rng: &mut Rng) -> DiffCase {
+    fn gen(&self, env: &Env, k: u64, rng: &mut Rng) -> DiffCase {
+        // thorough: the first SWEEP_SIZE case numbers are the complete sweep of small shapes
+        if env.tier == Tier::Thorough && k < SWEEP_SIZE {
+            return sweep_case(k);
+        }
         gen_case(rng, true, env.tier == Tier::Thorough)
     }
 
